@@ -54,6 +54,10 @@ def jobs(tier, seed):
                 if tier == 'quick' and n == 3 and name not in DEEP.get(cfg, ()):
                     continue
                 js.append({'name': '%s/%s/n%d' % (cfg, name, n), 'cfg': cfg, 'shape': name, 'tags': False, 'n': n})
+        if cfg in ('no-cache-type-score', 'minimal'):
+            # type window 3: default side = real add_scores on the specification-given 8^6 table (see C01 cache3-spec-table), other side = automaton scorer
+            for n in range(1, (3 if tier == 'quick' else 4) + 1):
+                js.append({'name': '%s/cache3-spec-table/n%d' % (cfg, n), 'cfg': cfg, 'shape': 'cache3-spec-table', 'tags': False, 'n': n, 'cache3': True})
         if 'tag-prediction' in CONFIGS[cfg]:
             for name in sorted(TAG_SHAPES):
                 for n in range(1, (2 if tier == 'quick' else 3) + 1):
@@ -74,13 +78,16 @@ def build(e, prog, shape, tags):
 
 def make(e, progs, job):
     pa = progs['core']; pb = progs[job['cfg']]
-    shape = (TAG_SHAPES if job['tags'] else SHAPES)[job['shape']]
+    shape = C01_harness.CACHE3_SHAPES[job['shape']] if job.get('cache3') else (TAG_SHAPES if job['tags'] else SHAPES)[job['shape']]
     tags = job['tags']
     st = {}
 
     def harness(e):
         e.use(pa)
-        ms, p1 = e.memo(('A', job['shape'], tags), lambda: build(e, pa, shape, tags))
+        if job.get('cache3'):
+            ms, p1 = e.memo(('A3', job['shape']), lambda: C01_harness.build_cache3(e, pa, shape))
+        else:
+            ms, p1 = e.memo(('A', job['shape'], tags), lambda: build(e, pa, shape, tags))
         ms2, p2 = e.memo((job['cfg'], job['shape'], tags), lambda: build(e, pb, shape, tags))
         st['ms'] = ms
         e.use(pa)
